@@ -125,7 +125,8 @@ class SSCChart(BaseChart):
                 param = MSDParameter((key, value))
             file.write(f"{param}\n")
 
-        notes_param = MSDParameter((notes_key, self[notes_key]))
+        notes = self[notes_key]
+        notes_param = MSDParameter((notes_key,) if notes is None else (notes_key, notes))
         file.write(f"{notes_param}\n\n")
 
 
